@@ -187,13 +187,13 @@ func (t FTy) toProto(env EnumEnv) *schema_j5pb.Field {
 		return &schema_j5pb.Field{Type: &schema_j5pb.Field_Any{Any: f}}
 	case TObject:
 		of := &schema_j5pb.ObjectField{
-			Schema: &schema_j5pb.ObjectField_Ref{Ref: &schema_j5pb.Ref{Package: "foo.v1", Schema: "Bar"}}, Flatten: t.Flatten}
+			Schema: &schema_j5pb.ObjectField_Ref{Ref: &schema_j5pb.Ref{Package: "foo.v1", Schema: t.refName()}}, Flatten: t.Flatten}
 		if r := t.ObjR; r != nil {
 			of.Rules = &schema_j5pb.ObjectField_Rules{MinProperties: r.Min, MaxProperties: r.Max}
 		}
 		return &schema_j5pb.Field{Type: &schema_j5pb.Field_Object{Object: of}}
 	case TOneof:
-		f := &schema_j5pb.OneofField{Schema: &schema_j5pb.OneofField_Ref{Ref: &schema_j5pb.Ref{Package: "foo.v1", Schema: "Choice"}}}
+		f := &schema_j5pb.OneofField{Schema: &schema_j5pb.OneofField_Ref{Ref: &schema_j5pb.Ref{Package: "foo.v1", Schema: t.refName()}}}
 		if t.OneofR {
 			f.Rules = &schema_j5pb.OneofField_Rules{}
 		}
@@ -326,12 +326,19 @@ func ftyFromProto(f *schema_j5pb.Field) (FTy, bool) {
 		return FTy{Kind: TAny, AnyOD: t.Any.OnlyDefined, AnyT: t.Any.Types, List: lpayFromMsg(t.Any.ListRules)}, true
 	case *schema_j5pb.Field_Object:
 		out := FTy{Kind: TObject, Flatten: t.Object.Flatten}
+		if ref := t.Object.GetRef(); ref != nil && ref.Package == "foo.v1" && ref.Schema != "Bar" {
+			out.Ref = ref.Schema // (anything unexpected fails the rebuild check in propFromProto)
+		}
 		if r := t.Object.Rules; r != nil {
 			out.ObjR = &ObjRules{Min: r.MinProperties, Max: r.MaxProperties}
 		}
 		return out, true
 	case *schema_j5pb.Field_Oneof:
-		return FTy{Kind: TOneof, OneofR: t.Oneof.Rules != nil, List: lpayFromMsg(t.Oneof.ListRules)}, true
+		out := FTy{Kind: TOneof, OneofR: t.Oneof.Rules != nil, List: lpayFromMsg(t.Oneof.ListRules)}
+		if ref := t.Oneof.GetRef(); ref != nil && ref.Package == "foo.v1" && ref.Schema != "Choice" {
+			out.Ref = ref.Schema
+		}
+		return out, true
 	}
 	return FTy{}, false
 }
@@ -776,7 +783,7 @@ func runC04(cfg *vh.Config) error {
 	res := vh.NewResult("C04", cfg.Seed)
 	res.Rule = "objects of 2-7 properties over every field type (integer x4, string, bytes, bool, enum, key x5 formats with entity keys, float x2, date, decimal, timestamp, any, object (flatten), oneof), each plain / required / optional / array (rules, singleForm) / map, every validation rule absent / zero / boundary, both values of every boolean, list rules (filtering, default filters, sorting, default sort, searching), descriptions; non-trivial = distinct property declaration carrying at least one rule, flag, format or annotation"
 	cf := &vh.CasesFile{
-		Header: "From Coq Require Import String List NArith ZArith.\nFrom J5V.lib Require Import Outcome.\nFrom J5V.model Require Import RulesDecl RulesRead RulesEnum RulesReadCorr.",
+		Header: "From Coq Require Import String List NArith ZArith.\nFrom J5V.lib Require Import Outcome.\nFrom J5V.model Require Import ProtoPrintLit ProtoPrint ProtoPrintFile.\nFrom J5V.model Require Import RulesDecl RulesRead RulesEnum RulesReadCorr.",
 		Type:   "c04case",
 		Check:  "c04_check",
 	}
@@ -885,6 +892,75 @@ func runC04(cfg *vh.Config) error {
 		cf.Terms = append(cf.Terms, fmt.Sprintf("C04Case %s [%s] [%s] %s [%s]", env.Coq(), strings.Join(dterms, ";"), strings.Join(outs, ";"), refl, strings.Join(same, ";")))
 		res.Cases = append(res.Cases, vh.CaseRec{Case: caseNo, Stream: "object", Input: input, Impl: map[string]any{"reflected": protoString(mem.obj), "error": fmt.Sprint(mem.err), "panic": fmt.Sprint(mem.panic)}})
 		res.Sample(map[string]any{"j5s": src, "reflected": protoString(mem.obj)}, 3)
+
+		// ---- the head of the root schema: kind, name, description
+		{
+			kindTerm := map[string]string{"object": "RObject", "oneof": "ROneof"}
+			obsOpt := "None"
+			if mo, ok := proto.GetExtension(md.Options(), ext_j5pb.E_Message).(*ext_j5pb.MessageOptions); ok && mo != nil {
+				switch mo.Type.(type) {
+				case *ext_j5pb.MessageOptions_Object:
+					obsOpt = "(Some RObject)"
+				case *ext_j5pb.MessageOptions_Oneof:
+					obsOpt = "(Some ROneof)"
+				}
+			}
+			reflHead := "None"
+			if mem.obj != nil {
+				rk := "RObject"
+				if mem.isOneof {
+					rk = "ROneof"
+				}
+				reflHead = fmt.Sprintf("(Some (%s, %s, %s))", rk, vh.BytesTerm(mem.obj.Name), vh.BytesTerm(mem.obj.Description))
+			}
+			if mem.obj != nil { // (an object that does not reflect because of a property is reported below)
+				cf.Terms = append(cf.Terms, fmt.Sprintf("C04Root %s %s %s %s %s %s %s", kindTerm[kind], vh.BytesTerm("Foo"), vh.BytesTerm(objDesc),
+					vh.BytesTerm(string(md.Name())), vh.BytesTerm(declaredComment(md)), obsOpt, reflHead))
+				res.Cases = append(res.Cases, vh.CaseRec{Case: caseNo, Stream: "root", Input: input, Impl: map[string]any{"reflected_head": reflHead}})
+				res.Count("root")
+			}
+		}
+
+		// ---- the decoder of the text clause: each compiled field as a descriptor of the file
+		// model (option trees as the printer walks them) vs the annotation record dumped above
+		for i := range props {
+			dt, err := dfieldTerm(md.Fields().Get(i))
+			if err != nil {
+				res.Count("view-skipped")
+				continue
+			}
+			cf.Terms = append(cf.Terms, fmt.Sprintf("C04View %s %s", dt, outs[i]))
+			res.Cases = append(res.Cases, vh.CaseRec{Case: caseNo, Stream: "view", Input: map[string]any{"j5s": props[i].P.J5S(env)}, Impl: map[string]any{"annotations": outs[i]}})
+			res.Count("view")
+		}
+
+		// ---- the whole file through the models of the text path: print -> parse -> decode ->
+		// read in Coq vs the real reflector on the really printed and re-parsed text; and the
+		// descriptor-side hypotheses of C04_text_checked evaluated on the real descriptor
+		if txt.panic == nil && (txt.obj != nil || txt.err != nil) && !strings.HasPrefix(fmt.Sprint(txt.err), "print:") && !strings.HasPrefix(fmt.Sprint(txt.err), "parse printed text:") {
+			dterm, unsupported := dfileDump(c.file)
+			if unsupported != "" {
+				res.Count("file-outside-model")
+			} else {
+				textRefl := `(Err "reflect")`
+				if txt.obj != nil {
+					var terms []string
+					for _, rp := range txt.obj.Properties {
+						ap, ok := propFromProto(env, rp)
+						if !ok || len(rp.ProtoField) != 1 {
+							terms = append(terms, "None")
+							res.Count("text-reflected-unrepresentable")
+							continue
+						}
+						terms = append(terms, fmt.Sprintf("(Some (RP %s [%d]))", ap.Coq(), rp.ProtoField[0]))
+					}
+					textRefl = "(Ok [" + strings.Join(terms, ";") + "])"
+				}
+				cf.Terms = append(cf.Terms, fmt.Sprintf("C04File %s %s %s %s %s", env.Coq(), impDump(c.file), dterm, vh.BytesTerm("Foo"), textRefl))
+				res.Cases = append(res.Cases, vh.CaseRec{Case: caseNo, Stream: "file", Input: map[string]any{"j5s": src, "proto": text}, Impl: map[string]any{"reflected_from_text": protoString(txt.obj), "error": fmt.Sprint(txt.err)}})
+				res.Count("file")
+			}
+		}
 
 		// ---- the enum as a root schema: declared vs compiled vs reflected
 		ed := c.file.Enums().ByName(protoreflect.Name(env.Name))
